@@ -136,6 +136,10 @@ def _solve_idx(args):
         return i, "error", "z3-5.1", 0.0, "smt2 export: " + repr(e)[:200], None
     if o.kind == "canary":
         return _solve((i, qf, full, 2000, 3000, False, False))
+    if getattr(o, "short", False):
+        # an obligation that is listed as an open finding: it is expected to fail; a short attempt is enough to notice
+        # if it has become provable
+        return _solve((i, qf, full, 3000, 8000, want_model, False))
     return _solve((i, qf, full, t_qf, t_full, want_model, use_cli))
 
 
